@@ -280,6 +280,61 @@ func runRdnsCase(t *testing.T, delays []time.Duration) (sx, sx) {
 	return L(sxInt(5), sxInt(int64(5*time.Second)), ds), out
 }
 
+// ---- kind 6: reverse-DNS lookups of the same addresses over time (the DNS cache) ----
+
+type rdnsOp struct {
+	dt   time.Duration
+	addr int
+	kind int // 0 names, 1 plain error, 2 DNS not-found, 3 DNS timeout
+	val  int64
+}
+
+func runRdnsCacheCase(t *testing.T, ops []rdnsOp) (sx, sx) {
+	in, out := sxList{}, sxList{}
+	synctest.Test(t, func(t *testing.T) {
+		cache.Cache = gocache.New(5*time.Minute, 0)
+		old := reversedns.LookupAddrFn
+		defer func() { reversedns.LookupAddrFn = old }()
+		t0 := time.Now()
+		for _, o := range ops {
+			time.Sleep(o.dt)
+			called := false
+			reversedns.LookupAddrFn = func(ctx context.Context, addr string) ([]string, error) {
+				called = true
+				switch o.kind {
+				case 0:
+					return []string{fmt.Sprintf("n%d", o.val)}, nil
+				case 2:
+					return nil, &net.DNSError{Err: "no such host", Name: addr, IsNotFound: true}
+				case 3:
+					return nil, &net.DNSError{Err: "i/o timeout", Name: addr, IsTimeout: true}
+				default:
+					return nil, errors.New("resolver failed")
+				}
+			}
+			names, err := reversedns.GetReverseDnsForIP(net.IPv4(192, 0, 2, byte(1+o.addr)))
+			ok := int64(0)
+			if o.kind == 0 {
+				ok = 1
+			}
+			in = append(in, L(sxInt(int64(time.Since(t0))), sxInt(int64(o.addr)), sxInt(ok), sxInt(o.val), sxInt(0)))
+			if err != nil || len(names) != 1 {
+				// an error, or an "answer" without any name
+				code := int64(0)
+				if err == nil {
+					code = 2
+				}
+				out = append(out, L(sxInt(code), sxInt(0), sxBool(called)))
+			} else {
+				var v int64
+				fmt.Sscanf(names[0], "n%d", &v)
+				out = append(out, L(sxInt(1), sxInt(v), sxBool(called)))
+			}
+		}
+	})
+	return L(sxInt(6), in), out
+}
+
 func labPol(e labEnv) {
 	r := newRng(e.seed)
 	w, err := newCaseWriter(filepath.Join(e.out, "pol.cases"))
@@ -315,6 +370,24 @@ func labPol(e labEnv) {
 		in, out := runRdnsCase(e.t, ds)
 		w.put(in, out)
 		tags["rdns_stall"]++
+	}
+	for i := 0; i < n/2; i++ {
+		var ops []rdnsOp
+		for k := 2 + r.intn(8); k > 0; k-- {
+			o := rdnsOp{addr: r.intn(2), kind: []int{0, 0, 1, 2, 2, 3}[r.intn(6)], val: int64(100 + r.intn(900))}
+			switch r.intn(5) {
+			case 0:
+				o.dt = time.Hour + time.Duration(r.intn(3)) - 1 // around the DNS cache lifetime
+			case 1:
+				o.dt = 0
+			default:
+				o.dt = time.Duration(r.intn(1800)) * time.Second
+			}
+			ops = append(ops, o)
+		}
+		in, out := runRdnsCacheCase(e.t, ops)
+		w.put(in, out)
+		tags["rdns_cache_sequences"]++
 	}
 	must(w.close())
 	writeDist(e, "pol", tags)
